@@ -41,6 +41,23 @@ CLAIMED["C19"] = dict(
     technique="Lean 4 theorems (closed-form run equations of set_height / set_max_height_allowed / link for all states) + differential correspondence on a limits+misuse generator in both build profiles + Lean predicate for exactness on static graphs",
     text="Kernel-checked for EVERY model state: a heap for limit N has N+1 buckets; set_height panics with the height diagnostic iff the height exceeds the limit (given max_height_seen ≤ limit), set_max_height_allowed succeeds iff not stabilising and N ≥ max_height_seen (and leaves N+1 buckets in both heaps), after which heights are accepted iff ≤ N; link succeeds iff 0 ≤ height ≤ limit. Tied to /repo by the limits generator (N in 1..12, chains/binds around N, grow/shrink at quiescent points, cycles through one and two binds, nested stabilise from function and handler, drop of everything afterwards) in debug and release, with holds_C19 computing the needed height of static graphs independently. Termination of adjust_heights (no hang) is observed (every run terminates under a timeout), not yet a theorem.",
     note=ENGINE_NOTE, ref="DESIGN.md §6 C19")
+STEP_NOTE = " The global statement (for every history) needs the scheduling invariant of drainHeap, which is not yet a theorem; it is covered on every run by the differential correspondence (exact trace equality with the model on all compared channels) and by the Lean predicate evaluated on the implementation's trace."
+CLAIMED["C01"] = dict(
+    technique="Lean 4 step theorems (one recompute establishes local consistency, with frame) + reference semantics `denote` in Lean evaluated against the implementation's reads + differential correspondence",
+    text="Partial proof, full differential check. Kernel-checked for EVERY model state: one recompute of a map / var / const / fold / map_with_old / bind-main node ends with value = the node's function of its inputs' values (pre- and post-state), and changes the value of no other node and the validity/kind of none (C01.step_*)." + STEP_NOTE + " The predicate holds_C01 evaluates a from-scratch reference semantics (Spec/Denote.lean: structural evaluation of the defining expression incl. binds and nested binds, independent of the engine model) on the current variable values and compares it with what every in-use observer reads after every stabilise, on histories with equality-respecting cutoffs and pure functions (the property's proviso), incl. scripted unobserve/change/re-observe shapes.",
+    note=ENGINE_NOTE, ref="DESIGN.md §6 C01, App. F")
+CLAIMED["C02"] = dict(
+    technique="Lean 4 step theorems (stamp-first, invoked once on the pre-state inputs, not stale afterwards) + differential correspondence in debug and release + Lean predicate (once per stabilise, arguments = inputs' final values)",
+    text="Partial proof, full differential check. Kernel-checked for EVERY model state: recompute_one stamps recomputed_at before anything else and keeps it; a map node's function is invoked exactly once per step on the values its inputs have at that moment; after the step the node is not stale (C02.step_*)." + STEP_NOTE + " holds_C02 checks on the implementation's trace that no closure runs twice in one stabilise and that the logged arguments equal the inputs' values when the stabilise returns; both build profiles.",
+    note=ENGINE_NOTE, ref="DESIGN.md §6 C02, App. F")
+CLAIMED["C06"] = dict(
+    technique="Lean 4 step theorems (cutoff table incl. argument order, suppress/propagate branches of maybe_change_value with 'changes are never lost', map_ref forwarding, can_recompute_now) + differential correspondence + Lean predicate on snapshots and cutoff events",
+    text="Partial proof, full differential check. Kernel-checked for EVERY model state: the cutoff table (Never/Always/PartialEq/Fn/FnBoxed with (old,new) in that order, depend_on), the suppress branch (value replaced, changed_at and heap untouched), the propagate branch (every parent ends queued or is handed back for direct recompute — also through MapRef and Expert parents), first result always propagates, can_recompute_now completely described (C06.*)." + STEP_NOTE + " holds_C06 checks per stabilise, from the snapshots before/after: cutoff functions get (previous value, new value); a needed valid dependant ran iff it never ran or an input's changed_at is newer than its last run (both directions); Never/Always/default kinds behave as specified. F13 (map_ref over map_with_old ignores its cutoff) is classified by the predicate and is a known finding.",
+    note=ENGINE_NOTE, ref="DESIGN.md §6 C06, App. F")
+CLAIMED["C13"] = dict(
+    technique="Lean 4 theorems (stabilise refuses on a poisoned state; status frame through every function; exact characterisation of the status after a panic; reads refuse; poisoned forever) + fault enumeration against the real crate (panic armed at every closure invocation) + Lean predicate",
+    text="Kernel-checked for EVERY model state: stabilise on a state whose status is not NotStabilising panics at the status assertion with the state untouched (no user code runs); no function other than stabilise/stabilise_end writes the status (invariant pushed through every function incl. all cascades); a panic out of stabilise leaves Stabilising or RunningOnUpdateHandlers, the latter exactly when propagation had completed and a handler panicked; in the former every read fails with CurrentlyStabilising, forever, whatever API calls follow, and writes only park values. Drain completeness before handlers is proved for debug builds (C13_partial_*, with a checked release-mode counterexample on an unreachable-looking state). Tied to /repo by enumerating a panic at every user-closure invocation of one or two stabilises per history (node function, fold, map_with_old, bind closure, cutoff function, edge callback, expert recompute, handler), followed by reads, stabilise, write, stabilise, drop of everything, all under catch_unwind; holds_C13 on the implementation's trace.",
+    note=ENGINE_NOTE + " Which handlers had already run when the k-th one panics depends on HashMap order: notifications are not compared for fault variants.", ref="DESIGN.md §6 C13, App. F")
 ALL = ["C%02d" % i for i in range(1, 21)]
 NOT_YET = "no check registered at this commit: the model component for this property is still under construction (see DESIGN.md §9 order of work); nothing is claimed"
 
